@@ -513,6 +513,7 @@ def r8(ctx, R):
 
     R.rule("C15.R8", "a link field that a resolver stores on another object is not written by that object's own resolvers (otherwise the result depends on which file is linked first)", floor=1, confirmed=1)
     n = 0
+    LF = None
     for f in sorted(ctx.m.funcs.values(), key=lambda g: g.qual):
         if not (f.name.startswith("resolve_") and f.rel.startswith("fortls/parsers/") and f.cls):
             continue
@@ -525,6 +526,19 @@ def r8(ctx, R):
                 if isinstance(st.value, ast.Constant):
                     continue
                 fld = t.attr
+                # only objects reached through a *name-resolved link* can belong to another file (the ancestor module of a
+                # submodule); what hangs off the resolver's own containers is built and linked with it, in parse order
+                if LF is None:
+                    from .c20 import LinkFields
+
+                    LF = LinkFields(ctx)
+                from .c05 import _slice_values
+
+                sl_attrs = {x.attr for e_ in _slice_values(ctx, f, t.value, st) for x in ast.walk(e_) if isinstance(x, ast.Attribute)}
+                if not (sl_attrs & set(LF.link)):
+                    R.ok("C15.R8", f.short, key(f, st), loc(f, st), f"`{unparse(t.value)}` hangs off the resolver's own containers ({sorted(sl_attrs)[:3]}): same file, fixed order")
+                    n += 1
+                    continue
                 # the selection by type id is more exact than a declared element type
                 ks = _classes_by_type_id(ctx, f, t.value)
                 if not ks:
